@@ -1098,8 +1098,9 @@ int32_t jls_core_fsr(struct jls_core_s * self, uint16_t signal_id, int64_t start
     int64_t chunk_sample_id;
     int64_t chunk_sample_count;
     uint8_t * u8;
-    uint8_t shift_bits = 0;
-    uint8_t shift_carry = 0;
+    uint8_t * const data_end_u8 = data_u8 + (size_t) ((data_length * entry_size_bits + 7) / 8);
+    uint8_t shift_bits = 0;     // bit offset of the first requested sample within its byte (1 & 4 bit types)
+    uint8_t shift_carry = 0;    // upper bits of the last source byte, not yet delivered
 
     while (data_length > 0) {
         ROE(jls_core_rd_fsr_data0(self, signal_id, start_sample_id));
@@ -1114,49 +1115,46 @@ int32_t jls_core_fsr(struct jls_core_s * self, uint16_t signal_id, int64_t start
         }
 
         int64_t sz_samples = chunk_sample_count;
+        int64_t carry_bits = 0;     // source bits of this chunk already held in shift_carry
         if (start_sample_id > chunk_sample_id) {
             // should only happen on first chunk
             int64_t idx_start = start_sample_id - chunk_sample_id;
+            int64_t bit_start = idx_start * entry_size_bits;  // chunk data starts on a byte boundary
             sz_samples = chunk_sample_count - idx_start;
-            u8 += ((idx_start * entry_size_bits) / 8);
-            switch (entry_size_bits) {
-                case 1: shift_bits = (uint8_t) (start_sample_id & 0x07); break;
-                case 4: shift_bits = (uint8_t) ((start_sample_id & 0x01) * 4); break;
-                default: break;
-            }
+            u8 += bit_start / 8;
+            shift_bits = (uint8_t) (bit_start & 0x07);
             if (shift_bits) {
                 shift_carry = (*u8++) >> shift_bits;
-                uint8_t rem_bits = (uint8_t) ((start_sample_id + data_length - 1) & 0x07) + 1;
-                if ((1 == entry_size_bits) && ((8 - shift_bits + rem_bits) > 8)) {
-                    // write out carry on buffer wrap when carry + end bits exceed a byte
-                    if (data_length > sz_samples) {
-                        data_length += 8;
-                    }
-                } else if ((4 == entry_size_bits) && (sz_samples == 1)) {
-                    data_length -= sz_samples;
-                    start_sample_id += sz_samples;
-                    continue;
-                }
+                carry_bits = 8 - shift_bits;
             }
+        }
+        if (sz_samples <= 0) {
+            JLS_LOGE("fsr chunk does not contain sample %" PRIi64, start_sample_id);
+            return JLS_ERROR_NOT_FOUND;
         }
 
         if (sz_samples > data_length) {
             sz_samples = data_length;
         }
 
-        size_t sz_bytes = (size_t) (sz_samples * entry_size_bits + 7) / 8;
+        int64_t sz_bits = sz_samples * entry_size_bits - carry_bits;  // still to fetch from this chunk
         if (shift_bits) {
+            // every source byte completes one destination byte; only the last chunk may end mid-byte
+            size_t sz_bytes = (sz_bits > 0) ? (size_t) ((sz_bits + 7) / 8) : 0;
             for (size_t i = 0; i < sz_bytes; ++i) {
-                data_u8[i] = (u8[i] << (8 - shift_bits)) | shift_carry;
+                data_u8[i] = (uint8_t) ((u8[i] << (8 - shift_bits)) | shift_carry);
                 shift_carry = u8[i] >> shift_bits;
             }
-            sz_bytes = (sz_samples * entry_size_bits) / 8;
+            data_u8 += sz_bytes;
         } else {
-            memcpy(data_u8, u8, sz_bytes);
+            memcpy(data_u8, u8, (size_t) ((sz_bits + 7) / 8));
+            data_u8 += (size_t) (sz_bits / 8);
         }
-        data_u8 += sz_bytes;
         data_length -= sz_samples;
         start_sample_id += sz_samples;
+    }
+    if (shift_bits && (data_u8 < data_end_u8)) {
+        *data_u8 = shift_carry;  // the final bits are still in the carry
     }
     return 0;
 }
